@@ -806,19 +806,21 @@ impl SerializableValue {
 
                 // For now, parse the body string back to AST
                 // In a real implementation, we'd want to serialize/deserialize the AST properly
-                let body_ast = crate::expressions::pairs_to_expr(
-                    crate::parser::get_pairs(&s_lambda.body)?
-                        .next()
-                        .unwrap()
-                        .into_inner(),
-                )?;
+                let body_pair = crate::parser::get_pairs(&s_lambda.body)?
+                    .next()
+                    .filter(|pair| pair.as_rule() == crate::parser::Rule::statement)
+                    .and_then(|statement| statement.into_inner().next())
+                    .filter(|pair| pair.as_rule() == crate::parser::Rule::expression)
+                    .ok_or_else(|| anyhow!("function body is not an expression: {}", s_lambda.body))?;
+                let body_ast = crate::expressions::pairs_to_expr(body_pair.into_inner())?;
 
                 let lambda = LambdaDef {
                     name: s_lambda.name.clone(),
                     args: s_lambda.args.clone(),
                     body: body_ast,
                     scope: CapturedScope::new(scope),
-                    source: Rc::from(""), // Deserialized lambdas don't have original source
+                    // The body was parsed from this text, so its spans refer to it
+                    source: Rc::from(s_lambda.body.as_str()),
                 };
 
                 Ok(heap.insert_lambda(lambda))
